@@ -4,7 +4,7 @@ import copy
 
 from mpv import arr, models
 
-LOAD_FAULTS = ("unknown-command", "duplicate-result", "missing-param", "undeclared-param")
+LOAD_FAULTS = ("unknown-command", "duplicate-result", "missing-param", "undeclared-param", "miscased-required-param")
 RUN_FAULTS = ("wrong-kind", "missing-result", "non-data-result", "wrong-fuzziness", "bad-path")
 ALL_FAULTS = LOAD_FAULTS + RUN_FAULTS
 
@@ -49,6 +49,13 @@ def applicable(model, kinds, req):
             if p in req.get(c["cmd"], ()):
                 sites.append(("missing-param", i, p, None))
         sites.append(("undeclared-param", i, "Bogus_Param", None))
+        unused = [p for p in ks if p not in c["args"]]
+        for p in unused[:2]:
+            # an undeclared name that differs from a declared (optional, unused) one only in letter case
+            sites.append(("undeclared-param", i, p.lower() if p.lower() != p else p.upper(), "case-variant"))
+        for p in list(c["args"])[:1]:
+            if p in req.get(c["cmd"], ()):
+                sites.append(("miscased-required-param", i, p, None))
         for p, k in ks.items():
             if p not in c["args"]:
                 # an optional declared parameter the base model does not use (Metadata on every command, ...)
@@ -98,6 +105,12 @@ def inject(model, site, rng):
     elif kind == "undeclared-param":
         c["args"][p] = 1
         exp.update(error="NoSuchParameter", where="arg", attrs={"parameter": p})
+    elif kind == "miscased-required-param":
+        # the required parameter is given under a name of other capitalisation: it is missing (and the other name undeclared)
+        newname = p.lower() if p.lower() != p else p.upper()
+        c["args"] = {(newname if k == p else k): v for k, v in c["args"].items()}
+        c.setdefault("kind_alias", {})[newname] = p
+        exp.update(error="MissingParameters", where="cmd", attrs={"parameters": [p]}, also_ok=["NoSuchParameter"], phase="load")
     elif kind == "wrong-kind":
         k = models.param_kinds()[c["cmd"]][p]
         label, raw, py = [w for w in WRONG[k] if w[0] == variant][0]
